@@ -11,7 +11,7 @@ const TEXTS = {
   other: { t: '@jsx gg', factory: 'gg' },
 };
 const STYLES = {
-  block: (t) => `/* ${t} */`, jsdoc: (t) => `/** ${t} */`, jsdocMulti: (t) => `/**\n * ${t}\n */`, jsdocMulti2: (t) => `/**\n * @file demo\n * ${t}\n * @license MIT\n */`, line: (t) => `// ${t}`, tight: (t) => `/*${t}*/`,
+  block: (t) => `/* ${t} */`, jsdoc: (t) => `/** ${t} */`, jsdocMulti: (t) => `/**\n * ${t}\n */`, jsdocMulti2: (t) => `/**\n * @file demo\n * ${t}\n * @license MIT\n */`, otherTagBefore: (t) => `/**\n * @jsxRuntime classic\n * ${t}\n */`, otherTagAfter: (t) => `/**\n * ${t}\n * @jsxImportSource vue\n */`, line: (t) => `// ${t}`, tight: (t) => `/*${t}*/`,
 };
 // module shapes: statements; `calls` = number of element + fragment vnode calls when everything is evaluated
 const SHAPES = {
